@@ -1743,6 +1743,7 @@ def thread_scenarios():
         "open": (True, [f"open t:{lab} 6", "sinfo @{A0}"]),
         "copy": (True, [f"copy {{S0}} {{X}} 3={hx('newA')} 1=01", "getattr {S0} @{A0} 3:64 11:64"]),
         "read-private": (True, ["getattr {S0} {Z} 3:64 11:64"]),          # decrypts with the token's one shared cipher object
+        "login-so": (True, ["logout {S0}", f"login {{S0}} 0 {so}", "sinfo {S0}", "logout {S0}"]),         # check-then-act inside Token::loginSO / C_Login; ends logged out (the closing inventory logs in as the user)
     }
     B = {   # name -> (uses S1 from the prologue?, [calls of thread 1 …])
         "open-create-read": (False, [f"open t:{lab} 6", f"create @{{B0}} 0={U(0)} 1=00 2=00 3={hx('newB')} 11=b2b2", "getattr @{B0} @{B1} 3:64 11:64", "findinit @{B0}", "find @{B0} 100", "findfinal @{B0}"]),
@@ -1755,10 +1756,13 @@ def thread_scenarios():
         "open-close": (False, [f"open t:{lab} 4", "sinfo @{B0}", "close @{B0}"]),
         "session-object": (True, [f"create {{S1}} 0={U(0)} 1=00 2=01 3={hx('newB')} 11=b2b2", "destroy {S1} @{B0}"]),
         "read-private": (True, ["getattr {S1} {Z} 3:64 11:64"]),
+        "login-user": (True, [f"login {{S1}} 1 {user}", "sinfo {S1}"]),
+        "login-so": (True, [f"login {{S1}} 0 {so}", "sinfo {S1}", "logout {S1}"]),
     }
     for an, (needS1, acalls) in A.items():
         for bn, (usesS1, bcalls) in B.items():
             if usesS1 and not needS1: continue
+            if bn in ("login-user", "login-so") and an not in ("login", "login-so", "logout", "open", "close"): continue
             lines = []
             def op(tag, text):
                 lines.append(f"{tag} {text}"); return len(lines)
@@ -1771,7 +1775,7 @@ def thread_scenarios():
             S1 = None
             if needS1 and usesS1: S1 = "@%d" % op("M", f"open t:{lab} 6")
             elif needS1: op("M", f"open t:{lab} 4")          # another session exists, so that A's session is not the last one
-            a0 = len(lines) + (2 if an == "login" else 1)
+            a0 = len(lines) + (2 if an in ("login", "login-so") else 1)
             for c in acalls: op("T0", c.replace("{S0}", S0).replace("{X}", X).replace("{Z}", Z).replace("{A0}", str(a0)))
             b0 = len(lines) + 1
             for c in bcalls: op("T1", c.replace("{S1}", S1 or "").replace("{X}", X).replace("{Z}", Z).replace("{B0}", str(b0)).replace("{B1}", str(b0 + 1)))
